@@ -174,24 +174,56 @@ func (c *Ctx) ruleR13b(rule string) {
 		return
 	}
 	g := mc.Fn.(*ssa.Function)
-	// the variable returned
-	var retVar *ssa.Alloc
-	for _, r := range ssax.Returns(fn) {
-		if u, ok := r.Results[0].(*ssa.UnOp); ok && u.Op == token.MUL {
-			retVar, _ = u.X.(*ssa.Alloc)
+	// the callback: a closure literal writing a captured variable, or a method value of a helper object writing a field
+	var recv *ssa.Parameter
+	nodeParam := ssa.Value(nil)
+	if g.Synthetic != "" && len(mc.Bindings) == 1 {
+		var m *ssa.Function
+		for _, call := range ssax.Calls(g) {
+			if sc := call.Common().StaticCallee(); sc != nil && c.P.InLib(sc) && sc.Signature.Recv() != nil {
+				m = sc
+			}
 		}
-	}
-	fvIdx := -1
-	for i, b := range mc.Bindings {
-		if b == ssa.Value(retVar) {
-			fvIdx = i
+		if m == nil || len(m.Params) != 2 {
+			c.R.Undecided(rule, "parsley.StaticCheck callback", "parsley.StaticCheck", c.P.InstrPos(wc), "the method value handed to Walk could not be resolved to a library method")
+			return
 		}
+		g, recv = m, m.Params[0]
 	}
-	if retVar == nil || fvIdx < 0 {
-		c.R.Violation(rule, "parsley.StaticCheck result variable", "parsley.StaticCheck", c.P.Pos(fn.Pos()), "StaticCheck does not return the variable its callback writes: the first error is lost")
+	if len(g.Params) == 0 {
+		c.R.Undecided(rule, "parsley.StaticCheck callback", "parsley.StaticCheck", c.P.InstrPos(wc), "callback without parameter")
 		return
 	}
-	fv := g.FreeVars[fvIdx]
+	nodeParam = g.Params[len(g.Params)-1]
+	// where StaticCheck reads its result from: a local variable, or a field of the helper object
+	var retLoc ssa.Value
+	retField := -1
+	for _, r := range ssax.Returns(fn) {
+		if u, ok := r.Results[0].(*ssa.UnOp); ok && u.Op == token.MUL {
+			switch a := u.X.(type) {
+			case *ssa.Alloc:
+				retLoc = a
+			case *ssa.FieldAddr:
+				retLoc, retField = a.X, a.Field
+			}
+		}
+	}
+	// the same location as the callback sees it
+	isErrAddr := func(addr ssa.Value) bool { return false }
+	if retLoc != nil && recv == nil && retField < 0 {
+		for i, b := range mc.Bindings {
+			if b == retLoc && i < len(g.FreeVars) {
+				fv := g.FreeVars[i]
+				isErrAddr = func(addr ssa.Value) bool { return addr == ssa.Value(fv) }
+			}
+		}
+	}
+	if retLoc != nil && recv != nil && retField >= 0 && mc.Bindings[0] == retLoc {
+		isErrAddr = func(addr ssa.Value) bool {
+			fa, ok := addr.(*ssa.FieldAddr)
+			return ok && fa.X == ssa.Value(recv) && fa.Field == retField
+		}
+	}
 	// in g: the invoke StaticCheck(userCtx) on the parameter
 	var sc *ssa.Call
 	for _, call := range ssax.Calls(g) {
@@ -205,11 +237,24 @@ func (c *Ctx) ruleR13b(rule string) {
 		good = ok
 		if ok {
 			ta, ok := e.Tuple.(*ssa.TypeAssert)
-			good = ok && ta.X == ssa.Value(g.Params[0])
+			good = ok && ta.X == nodeParam
 		}
 	}
 	if !good {
 		c.R.Violation(rule, "StaticCheck callback target", c.name(g), c.P.Pos(g.Pos()), "the callback does not run StaticCheck on the visited node itself")
+		return
+	}
+	// the callback writes the checker's error to the location StaticCheck returns
+	writes := false
+	for _, b := range g.Blocks {
+		for _, in := range b.Instrs {
+			if st, ok := in.(*ssa.Store); ok && isErrAddr(st.Addr) {
+				writes = true
+			}
+		}
+	}
+	if !writes {
+		c.R.Violation(rule, "parsley.StaticCheck result variable", "parsley.StaticCheck", c.P.Pos(fn.Pos()), "StaticCheck does not return the variable its callback writes: the first error is lost")
 		return
 	}
 	// path-sensitive: on every path, the callback returns true exactly when the checker returned an error, and that
@@ -217,7 +262,7 @@ func (c *Ctx) ruleR13b(rule string) {
 	var storeBlocks []*ssa.BasicBlock
 	for _, b := range g.Blocks {
 		for _, in := range b.Instrs {
-			if st, ok := in.(*ssa.Store); ok && st.Addr == ssa.Value(fv) && st.Val == ssa.Value(sc) {
+			if st, ok := in.(*ssa.Store); ok && isErrAddr(st.Addr) && st.Val == ssa.Value(sc) {
 				storeBlocks = append(storeBlocks, b)
 			}
 		}
